@@ -1058,4 +1058,135 @@ Proof.
   destruct (forward_between_pos (l_disp st0) (l_now st0) (dops tr) (key_of_msg c tx) t _ _ _ _ _ _ _ _ _ Hmono W K Hold Erun) as (s & r & f & cx & Hf & Hk & Hft); [lia|reflexivity|exact Hxnf|].
   rewrite <- Dw in Hf. apply disp_of_in in Hf as (u & Hf). exists u, s, r, f, cx. split; [exact Hf|]. split; [exact Hk|]. unfold loop_bound. lia.
 Qed.
+
+(* (a) CADENCE, lower bound and (b) NO AMPLIFICATION at the dispatcher: whatever arrives - local retries, requests of any number of
+   peers for the same (chain, transaction), at any rate - two forwards of one key to its watcher are more than the window apart *)
+Theorem loop_forwards_window_apart H st0 pre u1 s1 r1 t1 c1 mid u2 s2 r2 t2 c2 post :
+  lmono (l_now st0) H ->
+  snd (lrun st0 H) = pre ++ (u1, EDisp s1 (R.Req r1 t1) (R.Forward c1)) :: mid ++ (u2, EDisp s2 (R.Req r2 t2) (R.Forward c2)) :: post ->
+  R.key_of r1 = R.key_of r2 -> reobs_window < t2 - t1.
+Proof.
+  intros Hm E Hk. destruct (lrun_wf H st0) as [[Dw _] _]. rewrite E in Dw at 1. rewrite disp_of_app in Dw. cbn [disp_of flat_map snd app] in Dw.
+  fold (disp_of (mid ++ (u2, EDisp s2 (R.Req r2 t2) (R.Forward c2)) :: post)) in Dw. rewrite disp_of_app in Dw. cbn [disp_of flat_map snd app] in Dw. fold (disp_of post) in Dw.
+  eapply RP.forwards_window_apart; [apply lrun_mono; exact Hm|symmetry; exact Dw|exact Hk].
+Qed.
+
+(* (b) NO AMPLIFICATION at the processor: two retries of one pending message (within one lifetime of its aggregation entry) are at
+   least the retry period apart - one request per message per five minutes, however often the ticker fires *)
+Lemma cleanup_keep_cases now indb ck e e' o : cleanup_entry now indb ck e = CKeep e' o ->
+  (e' = e /\ o = []) \/ (e' = set_settled e /\ o = []) \/
+  (exists ob, our_msg e = Some ob /\ e' = set_retried e now /\ retries e < proc_own_retry_budget /\
+     match last_retry e with None => True | Some t => proc_retry_ns <= now - t end).
+Proof.
+  unfold cleanup_entry. destruct (negb (submitted e) && _ && _ && _); [discriminate|].
+  destruct (negb (settled e) && _); [destruct (_ || _ || _); [intros X; inversion X; subst; right; left; auto|discriminate]|].
+  destruct (submitted e && _); [discriminate|].
+  destruct (negb (submitted e) && ((_ && (proc_own_retry_budget <=? retries e)) || _)) eqn:Eb; [discriminate|].
+  destruct (negb (submitted e) && _ && _) eqn:Ed.
+  - destruct (our_msg e) as [ob|] eqn:Em; [|intros X; destruct (negb ck && proc_cleanup_nil_branch_uses_cur); discriminate X]. intros X; inversion X; subst. right. right. exists ob. split; [reflexivity|]. split; [reflexivity|].
+    apply andb_prop in Ed as [Ed1 Ed2]. apply andb_prop in Ed1 as [Es _]. rewrite Es in Eb. cbn [andb orb negb] in Eb. split.
+    + destruct (Z.leb_spec proc_own_retry_budget (retries e)); [discriminate Eb|assumption].
+    + destruct (last_retry e); [apply Z.leb_le; exact Ed2|exact I].
+  - intros X; inversion X; subst. left. auto.
+Qed.
+
+Lemma cleanup_retry_cond now indb ck e e' o : cleanup_entry now indb ck e = CKeep e' o -> retries e < retries e' ->
+  last_retry e' = Some now /\ retries e' = retries e + 1 /\ retries e < proc_own_retry_budget /\
+  match last_retry e with None => True | Some t => proc_retry_ns <= now - t end.
+Proof.
+  intros Ec Hlt. destruct (cleanup_keep_cases _ _ _ _ _ _ Ec) as [[-> _]|[[-> _]|(ob & _ & -> & A & B)]]; [lia|cbn [set_settled retries] in Hlt; lia|].
+  cbn [set_retried last_retry retries]. auto.
+Qed.
+
+Definition alive (st : lnode) (H : list lop) (h : bytes) : Prop :=
+  forall s o, In (s, o) (lstates st H) -> alookup h (agg (l_proc s)) <> None.
+
+Lemma lretried_effect st h : KeysND (l_proc st) -> lretried st h = true ->
+  exists e e', alookup h (agg (l_proc st)) = Some e /\ alookup h (agg (l_proc (fst (lstep st LCleanup)))) = Some e' /\
+    last_retry e' = Some (l_now st) /\ retries e' = retries e + 1 /\ retries e < proc_own_retry_budget /\
+    match last_retry e with None => True | Some t => proc_retry_ns <= l_now st - t end.
+Proof.
+  intros ND Hr. unfold lretried, retried_by in Hr. destruct (alookup h (agg (l_proc st))) as [e|] eqn:El; [|discriminate]. fold (ckb (l_proc st)) in Hr.
+  destruct (cleanup_entry _ _ _ e) as [e' o| |] eqn:Ec; try discriminate. apply Z.ltb_lt in Hr.
+  destruct (lcleanup_effect st ND) as (A & _). exists e, e'. split; [reflexivity|]. split; [rewrite A, El, Ec; reflexivity|]. eapply cleanup_retry_cond; eassumption.
+Qed.
+
+(* what one step does to the retry bookkeeping of an entry that exists before it *)
+Lemma lstep_entry_lr st o h e : LInv st -> alookup h (agg (l_proc st)) = Some e ->
+  alookup h (agg (l_proc (fst (lstep st o)))) = None \/
+  exists e', alookup h (agg (l_proc (fst (lstep st o)))) = Some e' /\
+    ((last_retry e' = last_retry e /\ retries e' = retries e /\ (o = LCleanup -> lretried st h = false)) \/
+     (last_retry e' = Some (l_now st) /\ o = LCleanup /\ lretried st h = true /\ retries e' = retries e + 1)).
+Proof.
+  intros [ND _] Hl. destruct (lop_eq_cleanup o) as [->|Hn].
+  - destruct (lcleanup_effect st ND) as (A & _). rewrite A, Hl. unfold lretried, retried_by. rewrite Hl. fold (ckb (l_proc st)).
+    destruct (cleanup_entry _ _ _ e) as [e' o'| |] eqn:Ec; [|left; reflexivity|right; exists e; split; [reflexivity|left; auto]].
+    right. exists e'. split; [reflexivity|].
+    destruct (cleanup_keep_cases _ _ _ _ _ _ Ec) as [[-> _]|[[-> _]|(ob & _ & -> & _)]].
+    + left. split; [reflexivity|]. split; [reflexivity|]. intros _. apply Z.ltb_irrefl.
+    + left. split; [reflexivity|]. split; [reflexivity|]. intros _. apply Z.ltb_irrefl.
+    + right. cbn [set_retried last_retry retries]. split; [reflexivity|]. split; [reflexivity|]. split; [apply Z.ltb_lt; lia|reflexivity].
+  - right. rewrite lstep_proc. destruct (prun_tf _ _ _ _ (lstep_no_cleanup st o Hn) Hl) as (e' & H1 & T). exists e'. split; [exact H1|]. inversion T as [[T1 T2 T3 T4]]. left. split; [reflexivity|]. split; [reflexivity|]. intros X. contradiction.
+Qed.
+
+Theorem loop_retries_period_apart h : forall H2 st1 e1, LInv st1 -> lmono (l_now st1) (H2 ++ [LCleanup]) ->
+  alive st1 (H2 ++ [LCleanup]) h -> alookup h (agg (l_proc st1)) = Some e1 ->
+  forall L, last_retry e1 = Some L -> lretried (fst (lrun st1 H2)) h = true -> proc_retry_ns <= l_now (fst (lrun st1 H2)) - L.
+Proof.
+  induction H2 as [|o H2 IH]; intros st1 e1 HI Hm Hal Hl L HL Hr.
+  - cbn [ReobsLoop.lrun fst] in *. destruct HI as [ND _]. destruct (lretried_effect _ _ ND Hr) as (e & e' & He & _ & _ & _ & _ & C).
+    assert (e = e1) by congruence. subst e. rewrite HL in C. exact C.
+  - cbn [app] in Hm, Hal. pose proof (lmono_step _ _ _ Hm) as [Hle Hm1]. rewrite lrun_cons in Hr |- *. cbn [fst] in *.
+    assert (HI1 : LInv (fst (lstep st1 o))) by (apply lstep_inv; assumption).
+    assert (Hal1 : alive (fst (lstep st1 o)) (H2 ++ [LCleanup]) h) by (intros s o' Hs; apply (Hal s o'); right; exact Hs).
+    destruct (lstep_entry_lr st1 o h e1 HI Hl) as [Hnone|(e' & Hl' & [(A & _)|(A & _)])].
+    + exfalso. destruct (H2 ++ [LCleanup]) as [|o2 r2] eqn:E2; [destruct H2; discriminate|]. apply (Hal1 (fst (lstep st1 o)) o2); [left; reflexivity|exact Hnone].
+    + eapply IH; try eassumption. congruence.
+    + assert (X : proc_retry_ns <= l_now (fst (lrun (fst (lstep st1 o)) H2)) - l_now st1) by (eapply IH; eassumption).
+      destruct HI as [_ LR]. specialize (LR _ _ _ Hl HL). lia.
+Qed.
+
+(* (e) BUDGET: the retry counter of an entry never exceeds the extracted budget, a retry happens only below it and counts one *)
+Definition budget_ok (p : pstate) : Prop := forall h e, alookup h (agg p) = Some e -> 0 <= retries e <= proc_own_retry_budget.
+
+Lemma lstep_budget st o : LInv st -> budget_ok (l_proc st) -> budget_ok (l_proc (fst (lstep st o))).
+Proof.
+  intros HI HB h e' Hl'. destruct (lop_eq_cleanup o) as [->|Hn].
+  - destruct HI as [ND _]. destruct (lcleanup_effect st ND) as (A & _). rewrite A in Hl'. destruct (alookup h (agg (l_proc st))) as [e|] eqn:El; [|discriminate].
+    specialize (HB _ _ El). destruct (cleanup_entry _ _ _ e) as [e2 o2| |] eqn:Ec; [|discriminate|inversion Hl'; subst; exact HB]. inversion Hl'; subst e2.
+    destruct (cleanup_keep_cases _ _ _ _ _ _ Ec) as [[-> _]|[[-> _]|(ob & _ & -> & X & _)]]; [exact HB|exact HB|cbn [set_retried retries]; lia].
+  - rewrite lstep_proc in Hl'. destruct (prun_tf_back _ _ _ _ (lstep_no_cleanup st o Hn) Hl') as [(e & H0 & T)|(_ & _ & X)].
+    + inversion T as [[T1 T2 T3 T4]]. rewrite T2. eapply HB; eassumption.
+    + rewrite X. unfold proc_own_retry_budget. lia.
+Qed.
+
+Theorem loop_budget : forall H st, LInv st -> lmono (l_now st) H -> budget_ok (l_proc st) -> budget_ok (l_proc (fst (lrun st H))).
+Proof.
+  induction H as [|o H IH]; intros st HI Hm HB; [exact HB|]. rewrite lrun_cons. cbn [fst]. apply lmono_step in Hm as [Hle Hm].
+  apply IH; [apply lstep_inv; assumption|exact Hm|apply lstep_budget; assumption].
+Qed.
+
+(* the number of retries of one message within one lifetime of its entry is the growth of its counter: at most the budget *)
+Fixpoint nretries (h : bytes) (l : list (lnode * lop)) : Z :=
+  match l with
+  | [] => 0
+  | (s, LCleanup) :: r => (if lretried s h then 1 else 0) + nretries h r
+  | _ :: r => nretries h r
+  end.
+
+Theorem loop_retry_count h : forall H st e e', LInv st -> lmono (l_now st) H -> alive st H h ->
+  alookup h (agg (l_proc st)) = Some e -> alookup h (agg (l_proc (fst (lrun st H)))) = Some e' ->
+  nretries h (lstates st H) = retries e' - retries e.
+Proof.
+  induction H as [|o H IH]; intros st e e' HI Hm Hal Hl Hl'.
+  - cbn in *. assert (e' = e) by congruence. subst. lia.
+  - rewrite lrun_cons in Hl'. cbn [fst] in Hl'. pose proof (lmono_step _ _ _ Hm) as [Hle Hm1]. cbn [ReobsLoop.lstates nretries].
+    assert (HI1 : LInv (fst (lstep st o))) by (apply lstep_inv; assumption).
+    assert (Hal1 : alive (fst (lstep st o)) H h) by (intros s o' Hs; apply (Hal s o'); right; exact Hs).
+    destruct (lstep_entry_lr st o h e HI Hl) as [Hnone|(e1 & Hl1 & C)].
+    + exfalso. destruct H as [|o2 H]; [cbn in Hl'; congruence|]. apply (Hal1 (fst (lstep st o)) o2); [left; reflexivity|exact Hnone].
+    + specialize (IH _ _ _ HI1 Hm1 Hal1 Hl1 Hl'). destruct C as [(_ & R & Nr)|(_ & -> & Yr & R)].
+      * destruct o; try (rewrite IH; lia); try (rewrite (Nr eq_refl), IH; lia).
+      * rewrite Yr, IH. lia.
+Qed.
 End Loop2.
